@@ -325,7 +325,7 @@ fn gen_mismatch(run: &mut Run, seed: u64, thorough: bool) {
                 if cfg.psks.is_empty() && rep % 2 == 0 && pi % 2 == 0 {
                     cfg.psks = vec![0];
                 }
-                for kind in 0..5 {
+                for kind in 0..6 {
                     let mut sc = Sc::new();
                     if run_mismatch(&cfg, kind, &mut sc, &mut r) {
                         run.add("hs", format!("C08 mismatch kind {kind} {}", cfg.name()), sc);
@@ -402,6 +402,13 @@ fn run_mismatch(cfg: &HsCfg, kind: usize, sc: &mut Sc, r: &mut Rng64) -> bool {
                 return false;
             }
         },
+        5 => {
+            // both are built with the same psk; one side then replaces it through set_psk (after build)
+            if psk.is_empty() {
+                return false;
+            }
+            "psk replaced by set_psk on one side"
+        },
         _ => {
             // same pattern, different hash of equal digest length (a different protocol name)
             let other = match cfg.hash.as_str() {
@@ -417,6 +424,18 @@ fn run_mismatch(cfg: &HsCfg, kind: usize, sc: &mut Sc, r: &mut Rng64) -> bool {
     sc.ex.comment(&format!("mismatch {name}: {what}"));
     if !sc.ex.build(1, &spec_i).is_ok() || !sc.ex.build(2, &spec_r).is_ok() {
         return true;
+    }
+    if kind == 5 {
+        let j = r.below(psk.len());
+        let mut k2 = psk[j].1.clone();
+        let b = r.below(32);
+        k2[b] ^= 1 << r.below(8);
+        let side = if r.chance(1, 2) { 1 } else { 2 };
+        let o = sc.ex.set_psk(side, psk[j].0 as usize, &k2);
+        sc.check_panic(&o, "set_psk");
+        if !o.is_ok() {
+            sc.viol("C12", format!("{name}: set_psk on a filled slot failed: {o:?}"));
+        }
     }
     let mut failed = false;
     for k in 0..inst.msgs.len() {
@@ -476,7 +495,7 @@ fn gen_transport(run: &mut Run, prop: &str, seed: u64, thorough: bool) {
                     run_transport(&cfg, &mut sc);
                     run.add("transport", format!("{prop} transport {n} {res} #{rep}"), sc);
                 }
-                if matches!(prop, "C04" | "C09" | "C16" | "C15" | "C10" | "C19" | "C14") {
+                if matches!(prop, "C04" | "C09" | "C16" | "C15" | "C10" | "C19" | "C14" | "C06" | "C07") {
                     let mut sc = Sc::new();
                     run_stateless(&cfg, &mut sc);
                     run.add("stateless", format!("{prop} stateless {n} {res} #{rep}"), sc);
